@@ -500,7 +500,7 @@ def run_impl(case, order, built=None):
 def parse_reply(case, reply):
     """-> (flags, tags, {name: [Fraction|float|None]})"""
     head, *rows = reply.split(" ; ")
-    _, flags, tags = head.split()
+    _, flags, tags, *_ = head.split()
     names = out_names(case)
     vals = {}
     for n, r in zip(names, rows):
@@ -624,7 +624,7 @@ def text_names(text):
 def oracle(ctx: Ctx, case, order, status, vals, out_db, eff=None):
     """the property statement, checked on the implementation's output with nothing from the Lean model"""
     if status != "ok":
-        return None
+        return None, None
     flags = []
     src = source_of(case)
     eq_texts = [l.strip().rstrip(";") for l in src.split("!equations", 1)[1].strip().split("\n") if l.strip()]
@@ -660,6 +660,7 @@ def oracle(ctx: Ctx, case, order, status, vals, out_db, eff=None):
     for p in case["plan"]:
         for c in p["cols"]:
             points[(p["name"], c)] = p
+    closed = static_condition(parsed, order, nper)
     sched = ([(c, i) for c in range(nper) for i in range(len(parsed))] if order == "de"
              else [(c, i) for i in range(len(parsed)) for c in range(nper)])
     # which cells does each step write (the LHS cell; the residual cell where the plan has a point)
@@ -761,7 +762,38 @@ def oracle(ctx: Ctx, case, order, status, vals, out_db, eff=None):
                     ctx.count("oracle_exogenized_value_checked")
             except Skip:
                 pass
-    return "".join(flags)
+    return "".join(flags), closed
+
+
+def static_condition(parsed, order, nper) -> str:
+    """the hypotheses of the closed-form admissibility theorems, recomputed here from the equation TEXTS: no equation reads its
+    own LHS in the same period (nor its residual explicitly); equations write different names; a name written by equation j is
+    read by equation i, with both periods inside the span, only
+      dates_equations:  at a lag, or in the same period when j is not later than i (sequentialised, leads only into input cells)
+      equations_dates:  when j is an earlier equation (any shift), or j = i at a non-positive shift."""
+    n = len(parsed)
+    writes = [[e["name"]] + ([] if e["ident"] else ["res_" + e["name"]]) for e in parsed]
+    toks = [list(e["reads"]) + ([] if e["ident"] else [("res_" + e["name"], 0)]) for e in parsed]
+    for i, e in enumerate(parsed):
+        if (e["name"], 0) in toks[i]:
+            return "N"
+        if not e["ident"] and (("res_" + e["name"], 0) in e["reads"] or "res_" + e["name"] == e["name"]):
+            return "N"
+    for i in range(n):
+        for j in range(n):
+            if i != j and set(writes[i]) & set(writes[j]):
+                return "N"
+    for i in range(n):
+        for j in range(n):
+            for name, k in toks[i]:
+                if name not in writes[j]:
+                    continue
+                if not any(0 <= t + k < nper for t in range(nper)):
+                    continue
+                ok = (k < 0 or (k == 0 and j <= i)) if order == "de" else (j < i or (j == i and k <= 0))
+                if not ok:
+                    return "N"
+    return "C"
 
 
 # ---------------------------------------------------------------------------------------
@@ -858,7 +890,7 @@ def run_cases(ctx: Ctx, cases, with_model=True):
         ctx.count("impl_" + status)
         if rep is not None:
             compare_case(ctx, case, order, status, vals, rep[k], rep[len(jobs) + k])
-        oflags = oracle(ctx, case, order, status, vals, out_db, eff)
+        oflags, oclosed = oracle(ctx, case, order, status, vals, out_db, eff)
         if rep is not None and oflags is not None and rep[len(jobs) + k].startswith("ok "):
             # E-class stream: "this step computes its value after everything it reads" as decided by the model (`stepOK`)
             # and, independently, by the oracle from the equation texts
@@ -866,6 +898,19 @@ def run_cases(ctx: Ctx, cases, with_model=True):
             ctx.streams_compared["admissible"] = ctx.streams_compared.get("admissible", 0) + 1
             if mflags != oflags:
                 ctx.disagree("admissible", {"case": case, "order": order}, oflags, mflags)
+            # E-class stream: do the hypotheses of the closed-form theorems (datesEquations_admissible / equationsDates_admissible)
+            # hold for this model text, order and span -- decided by the Lean definitions and, independently, from the texts;
+            # where they hold, every step must have been found admissible (what the theorems say)
+            head = rep[len(jobs) + k].split(" ; ")[0].split()
+            mclosed = head[3] if len(head) > 3 else "?"
+            ctx.streams_compared["closed-form"] = ctx.streams_compared.get("closed-form", 0) + 1
+            if mclosed != oclosed:
+                ctx.disagree("closed-form", {"case": case, "order": order}, oclosed, mclosed)
+            elif oclosed == "C" and "F" in oflags:
+                ctx.disagree("closed-form", {"case": case, "order": order}, "condition holds but " + oflags, mflags)
+            ctx.count("closed_form_condition_" + ("holds" if oclosed == "C" else "fails") + "_" + order)
+            if oclosed != "C" and "F" not in oflags:
+                ctx.count("admissible_without_closed_form_condition_" + order)
         if k % max(1, len(jobs) // 3) == 0:
             ctx.sample({"source": source_of(case), "prep": case.get("prep", []), "order": order, "plan": case["plan"], "status": status,
                         "output": {n: [None if is_nan(x) else x for x in v] for n, v in (vals or {}).items()}})
